@@ -144,8 +144,11 @@ def check(run):
     values, res = loadfam.gen_cases(run, "MC_Value", cfg, timeout=7200)
     if len(values) < 100:
         raise vp.ToolError("MC_Value produced too few values")
-    vcases = value_cases(run, values, 2 if quick else 12)
-    pcases = project_cases(run, values if quick else values[:30000])
+    scale = [v for v in values if v.get("scale")]
+    values = [v for v in values if not v.get("scale")]
+    vcases = value_cases(run, scale + values, 2 if quick else 12)
+    # the scale family is its own project and always part of the L2 sample
+    pcases = project_cases(run, scale, per_project=40) + project_cases(run, values if quick else values[:30000])
     run.samples = [{"ast": vcases[len(vcases) // 3]["abs"]["ast"], "spelling": vcases[len(vcases) // 3]["s"]},
                    {"ast": vcases[-1]["abs"]["ast"], "spelling": vcases[-1]["s"]}]
     loadfam.replay_load(run, vcases, "Trace_Value", "Trace_Value.cfg", build_features=("json", "quote"),
